@@ -12,7 +12,7 @@ def pos(id, props, f, old, new, expect, note, nth=0): ctl(id, 'positive', props,
 def neg(id, props, f, old, new, note, nth=0): ctl(id, 'negative', props, [(f, old, new, nth)], '', note)
 
 # ---------------- C13 ----------------
-pos('C13-p01', ['C13'], X+'map.go', "\t\t\t\tif del {\n\t\t\t\t\tunlockBucket(&rootb.topHashMutex)\n\t\t\t\t\treturn newValue, false", "\t\t\t\tif del {\n\t\t\t\t\treturn newValue, false", 'C13.L1', 'unlock dropped on Map.doCompute new-bucket delete path')
+pos('C13-p01', ['C13'], X+'map.go', "\t\t\t\tif del {\n\t\t\t\t\tunlockBucket(&rootb.topHashMutex)\n\t\t\t\t\treturn zeroedV, false\n\t\t\t\t}\n\t\t\t\t// Create and append a bucket.", "\t\t\t\tif del {\n\t\t\t\t\treturn zeroedV, false\n\t\t\t\t}\n\t\t\t\t// Create and append a bucket.", 'C13.L1', 'unlock dropped on Map.doCompute new-bucket delete path')
 pos('C13-p02', ['C13'], X+'mapof.go', "\t\t\t\t\t\tif loadIfExists {\n\t\t\t\t\t\t\trootb.mu.Unlock()\n", "\t\t\t\t\t\tif loadIfExists {\n", 'C13.L1', 'unlock dropped on MapOf.doCompute load-if-exists hit under lock')
 pos('C13-p03', ['C13'], X+'map.go', "\t\t\tatomic.StoreInt64(&m.resizing, 0)\n\t\t\tm.resizeCond.Broadcast()\n", "\t\t\tatomic.StoreInt64(&m.resizing, 0)\n", 'C13.L3', 'Broadcast dropped on abandoned-shrink exit')
 pos('C13-p04', ['C13'], 'xsync_mapof.go', "\t\t\tif loaded && !value.expired() {\n\t\t\t\tok = true\n\t\t\t\told = value\n\t\t\t}", "\t\t\tif loaded && !value.expired() {\n\t\t\t\tok = true\n\t\t\t\told = value\n\t\t\t\tif ec := c.EvictedCallback(); ec != nil {\n\t\t\t\t\tec(k, old.v)\n\t\t\t\t}\n\t\t\t}", 'C13.L5', 'evicted callback invoked inside a Compute closure (under the bucket lock)')
@@ -27,7 +27,30 @@ neg('C13-n01', ['C13'], X+'map.go', "func unlockBucket(mu *uint64) {", "func unl
 neg('C13-n02', ['C13'], X+'mapof.go', "\tm.resizeMu.Lock()\n\tfor m.resizeInProgress() {\n\t\tm.resizeCond.Wait()\n\t}\n\tm.resizeMu.Unlock()", "\tm.resizeMu.Lock()\n\tif m.resizeInProgress() {\n\t\tm.resizeCond.Wait()\n\t}\n\tm.resizeMu.Unlock()", 'for -> if around Wait (callers re-validate)')
 neg('C13-n03', ['C13'], X+'map.go', "\t\t\tm.resizeMu.Lock()\n\t\t\tatomic.StoreInt64(&m.resizing, 0)\n\t\t\tm.resizeCond.Broadcast()\n\t\t\tm.resizeMu.Unlock()\n\t\t\treturn", "\t\t\tatomic.StoreInt64(&m.resizing, 0)\n\t\t\tm.resizeMu.Lock()\n\t\t\tm.resizeCond.Broadcast()\n\t\t\tm.resizeMu.Unlock()\n\t\t\treturn", 'flag clear alone moved before resizeMu.Lock')
 neg('C13-n04', ['C13'], X+'map.go', "\t\tb := rootb\n\t\tfor {\n\t\t\ttopHashes := atomic.LoadUint64(&b.topHashMutex)", "\t\tb := rootb\n\t\truntime.Gosched()\n\t\tfor {\n\t\t\ttopHashes := atomic.LoadUint64(&b.topHashMutex)", 'Gosched under the lock (slow, not stuck)')
-neg('C13-n05', ['C13'], X+'mapof.go', "\tswitch hint {\n\tcase mapGrowHint:\n\t\t// Grow the table with factor of 2.\n\t\tatomic.AddInt64(&m.totalGrowths, 1)\n\t\tnewTable = newMapOfTable[K, V](tableLen << 1)\n\tcase mapShrinkHint:", "\tif hint == mapGrowHint {\n\t\t// Grow the table with factor of 2.\n\t\tatomic.AddInt64(&m.totalGrowths, 1)\n\t\tnewTable = newMapOfTable[K, V](tableLen << 1)\n\t} else {\n\tswitch hint {\n\tcase mapShrinkHint:", 'broken-on-purpose syntax guard (should be skipped(no-compile))')
+ctl('C13-n05', 'negative', ['C13','C03','C04','C11','C08'], [
+    (X+'mapof.go', "\tswitch hint {\n\tcase mapGrowHint:", "\tif hint == mapGrowHint {", 0),
+    (X+'mapof.go', "\tcase mapShrinkHint:\n\t\tshrinkThreshold", "\t} else if hint == mapShrinkHint {\n\t\tshrinkThreshold", 0),
+    (X+'mapof.go', "\tcase mapClearHint:\n\t\tnewTable = newMapOfTable", "\t} else if hint == mapClearHint {\n\t\tnewTable = newMapOfTable", 0),
+    (X+'mapof.go', "\tdefault:\n\t\tpanic(fmt.Sprintf(\"unexpected resize hint", "\t} else {\n\t\tpanic(fmt.Sprintf(\"unexpected resize hint", 0),
+], '', 'resize: switch on hint rewritten as an if/else-if chain')
+
+
+# ---------------- C14 ----------------
+pos('C14-p01', ['C14'], X+'map.go', "atomic.StorePointer(&b.values[i], nvp)", "b.values[i] = nvp", 'C14.A1', 'atomic slot store made plain (Map update path)')
+pos('C14-p02', ['C14'], X+'map.go', "func (m *Map) Size() int {\n\ttable := (*mapTable)(atomic.LoadPointer(&m.table))", "func (m *Map) Size() int {\n\ttable := (*mapTable)(m.table)", 'C14.A2', 'Size: plain read of m.table')
+pos('C14-p03', ['C14','C04'], X+'mapof.go', "\t\t\t\t\t\tnewe := new(entryOf[K, V])\n\t\t\t\t\t\tnewe.key = key\n\t\t\t\t\t\tnewe.value = newv\n\t\t\t\t\t\tatomic.StorePointer(&b.entries[idx], unsafe.Pointer(newe))\n", "\t\t\t\t\t\te.value = newv\n", 'C14.A3', 'MapOf update mutates the published immutable entry in place')
+pos('C14-p04', ['C14'], X+'mapof.go', "\t\t\teptr := atomic.LoadPointer(&b.entries[idx])\n\t\t\tif eptr != nil {", "\t\t\teptr := b.entries[idx]\n\t\t\tif eptr != nil {", 'C14.A2', 'MapOf.Load reads the entry slot plainly')
+pos('C14-p05', ['C14'], X+'map.go', "\t\t\t\t\t\tleftEmpty := false\n\t\t\t\t\t\tif hintNonEmpty == 0 {\n\t\t\t\t\t\t\tleftEmpty = isEmptyBucket(b)\n\t\t\t\t\t\t}\n\t\t\t\t\t\tunlockBucket(&rootb.topHashMutex)", "\t\t\t\t\t\tleftEmpty := false\n\t\t\t\t\t\tunlockBucket(&rootb.topHashMutex)\n\t\t\t\t\t\tif hintNonEmpty == 0 {\n\t\t\t\t\t\t\tleftEmpty = isEmptyBucket(b)\n\t\t\t\t\t\t}", 'C14.A2', 'isEmptyBucket (plain reads) called after the unlock')
+pos('C14-p06', ['C14'], X+'mapof.go', "atomic.StoreUint64(&b.meta, newmetaw)", "b.meta = newmetaw", 'C14.A1', 'meta word store made plain (delete path)')
+pos('C14-p07', ['C14'], X+'map.go', "\tatomic.StorePointer(&m.table, unsafe.Pointer(newTable))\n\tm.resizeMu.Lock()", "\tm.table = unsafe.Pointer(newTable)\n\tm.resizeMu.Lock()", 'C14.A1', 'table publication made plain')
+pos('C14-p08', ['C14'], X+'map.go', "\t\t\t\t\tatomic.StorePointer(&b.values[i], nvp)", "\t\t\t\t\tatomic.StorePointer(&b.values[i], vp)", 'C14.A4', 'slot store of a reloaded (non-unique) value pointer')
+pos('C14-p09', ['C14'], X+'mapof.go', "\t\t\t\tatomic.StorePointer(&b.next, unsafe.Pointer(newb))\n\t\t\t\trootb.mu.Unlock()\n\t\t\t\ttable.addSize(bidx, 1)", "\t\t\t\tatomic.StorePointer(&b.next, unsafe.Pointer(newb))\n\t\t\t\tnewb.meta = setByte(newb.meta, h2, 0)\n\t\t\t\trootb.mu.Unlock()\n\t\t\t\ttable.addSize(bidx, 1)", 'C14.A1', 'plain write to a bucket after it has been linked into the chain')
+pos('C14-p10', ['C14'], 'xsync_map.go', "func (c *xsyncMap) SetDefaultExpiration(defaultExpiration time.Duration) {\n\tc.defaultExpiration.Store(defaultExpiration)", "func (c *xsyncMap) SetDefaultExpiration(defaultExpiration time.Duration) {\n\tc.defaultExpiration.Store(int64(defaultExpiration))", 'C14.A5', 'second dynamic type stored into the atomic.Value')
+pos('C14-p11', ['C14'], X+'map.go', "func (table *mapTable) addSize(bucketIdx uint64, delta int) {\n\tcidx := uint64(len(table.size)-1) & bucketIdx\n\tatomic.AddInt64(&table.size[cidx].c, int64(delta))", "func (table *mapTable) addSize(bucketIdx uint64, delta int) {\n\tcidx := uint64(len(table.size)-1) & bucketIdx\n\ttable.size[cidx].c += int64(delta)", 'C14.A1', 'counter stripe updated plainly on a published table')
+pos('C14-p12', ['C14'], 'xsync_mapof.go', "\tcache := &xsyncMapOfWrapper[K, V]{c}\n", "\tcfg.CleanupInterval = 0\n\tcache := &xsyncMapOfWrapper[K, V]{c}\n", 'C14.A6', 'constructor writes cfg after starting the janitor that reads it')
+pos('C14-p13', ['C14'], X+'map.go', "type Map struct {\n\ttotalGrowths int64\n\ttotalShrinks int64\n\tresizing     int64          // resize in progress flag; updated atomically\n\tresizeMu     sync.Mutex     // only used along with resizeCond", "type Map struct {\n\tgrowOnly2    bool\n\ttotalGrowths int64\n\ttotalShrinks int64\n\tresizing     int64          // resize in progress flag; updated atomically\n\tresizeMu     sync.Mutex     // only used along with resizeCond", 'C14.A7', '64-bit atomics misaligned on 386 by a leading bool field')
+neg('C14-n01', ['C14'], X+'map.go', "\t\t\tvp := atomic.LoadPointer(&b.values[i])\n\t\t\tkp := atomic.LoadPointer(&b.keys[i])", "\t\t\tvslot := &b.values[i]\n\t\t\tvp := atomic.LoadPointer(vslot)\n\t\t\tkp := atomic.LoadPointer(&b.keys[i])", 'atomic access through a local pointer alias')
+neg('C14-n02', ['C14'], X+'mapof.go', "\t\t\tmetaw := b.meta\n\t\t\tmarkedw := markZeroBytes(metaw^h2w) & metaMask\n\t\t\tfor markedw != 0 {\n\t\t\t\tidx := firstMarkedByteIndex(markedw)\n\t\t\t\teptr := b.entries[idx]", "\t\t\tmetaw := atomic.LoadUint64(&b.meta)\n\t\t\tmarkedw := markZeroBytes(metaw^h2w) & metaMask\n\t\t\tfor markedw != 0 {\n\t\t\t\tidx := firstMarkedByteIndex(markedw)\n\t\t\t\teptr := b.entries[idx]", 'plain read under lock replaced by an atomic read (stronger, still fine)')
 
 os.makedirs(os.path.dirname(os.path.abspath(__file__)), exist_ok=True)
 out = os.path.join(os.path.dirname(os.path.abspath(__file__)), 'catalogue.json')
